@@ -336,7 +336,8 @@ namespace bluetoe
                             if ( start_address > end_address || !MemRegions::acceptable( start_address,end_address ) )
                                 return request_error( bluetoe::error_codes::invalid_offset );
 
-                            check_sum = this->public_checksum32( start_address, end_address - start_address );
+                            in_flash_mode = false;
+                            check_sum     = this->public_checksum32( start_address, end_address - start_address );
                         }
                         break;
                     case opc_start_flash:
@@ -351,7 +352,7 @@ namespace bluetoe
                             used_buffer_  = 0;
                             in_flash_mode = true;
 
-                            if ( !MemRegions::acceptable( start_address, start_address ) )
+                            if ( !MemRegions::acceptable( start_address, start_address + 1 ) )
                                 return request_error( bluetoe::error_codes::invalid_offset );
 
                             for ( auto& buffer : buffers_ )
@@ -391,7 +392,11 @@ namespace bluetoe
                         break;
                     case opc_read:
                         {
+                            if ( write_size != 1 + 2 * sizeof( std::uint8_t* ) )
+                                return request_error( bluetoe::error_codes::invalid_attribute_value_length );
+
                             error         = error_codes::success;
+                            in_flash_mode = false;
                             start_address = read_address( value +1 );
                             end_address   = read_address( value +1 + sizeof( std::uint8_t* ) );
                             check_sum     = this->checksum32( start_address );
@@ -596,7 +601,7 @@ namespace bluetoe
                 {
                     const auto next = ( next_buffer_ + 1 ) % number_of_concurrent_flashs;
 
-                    if ( buffers_[ next ].empty() )
+                    if ( buffers_[ next ].empty() && MemRegions::acceptable( start_address, start_address + 1 ) )
                     {
                         ++consecutive_;
                         buffers_[ next ].set_start_address( start_address, *this, buffers_[ next_buffer_ ].crc(), consecutive_ );
